@@ -18,7 +18,7 @@ fn gen_scalar(u: &mut Choices, hard: bool) -> V {
             let n = if hard { STRS.len() } else { 15 };
             V::Str(STRS[u.below(n)].to_string())
         }
-        1 => V::Int(*u.pick(&[0i64, 1, 50, 500, -1, 65536])),
+        1 => V::Int(*u.pick(&[0i64, 1, 50, 500, -1, 65536, 9007199254740993, -9007199254740993, i64::MAX, 4611686018427387905])),
         _ => V::Bool(u.chance(1, 2)),
     }
 }
@@ -303,6 +303,6 @@ pub fn run(tier: Tier, seed: u64) -> i32 {
     };
     execute("C19", tier, seed, spec, &replay, &|run: &Session| {
         run.shrink_iters.store(120, std::sync::atomic::Ordering::Relaxed);
-        run.run_random("templates", tier.pick(1_500, 40_000), 300, random_case);
+        run.run_random("templates", tier.pick(12_000, 200_000), 300, random_case);
     })
 }
